@@ -1,4 +1,4 @@
-From Rws Require Import Str Num Fs UrlParse RangeSpec Request GenMime Mime StaticRes GenConsts Server StrLemmas.
+From Rws Require Import Str Num Unicase Fs UrlParse RangeSpec Request GenMime Mime StaticRes GenConsts Server StrLemmas.
 Open Scope N_scope.
 
 (* a substring is found *)
@@ -77,8 +77,8 @@ Theorem C11_off_preflight o cr m h e a r org :
   cors_headers (COff o cr m h e a) r =
     [H Hd_ACCESS_CONTROL_ALLOW_ORIGIN (hvalue org)] ++ (if beqs cr TRUE then [H Hd_ACCESS_CONTROL_ALLOW_CREDENTIALS TRUE] else []) ++
     (if beqs (method r) OPTIONS then
-       [H Hd_ACCESS_CONTROL_ALLOW_METHODS m; H Hd_ACCESS_CONTROL_ALLOW_HEADERS (lower h);
-        H Hd_ACCESS_CONTROL_EXPOSE_HEADERS (lower e); H Hd_ACCESS_CONTROL_MAX_AGE a] else []).
+       [H Hd_ACCESS_CONTROL_ALLOW_METHODS m; H Hd_ACCESS_CONTROL_ALLOW_HEADERS (ulower h);
+        H Hd_ACCESS_CONTROL_EXPOSE_HEADERS (ulower e); H Hd_ACCESS_CONTROL_MAX_AGE a] else []).
 Proof. intros E Hm. cbn [cors_headers]. unfold cors_off. rewrite E. fold (elem o (hvalue org)). fold (member o (hvalue org)). rewrite Hm. reflexivity. Qed.
 
 (* regression witnesses for the defect fixed by e79b41d: a prefix, the empty Origin and two origins joined are not granted *)
